@@ -9,8 +9,9 @@ IP10 = [-2147483648, -2147483647, -2, -1, 0, 1, 2, 3, 2147483646, 2147483647]
 IP6 = [-2147483648, -1, 0, 1, 2, 2147483647]
 IDX8 = [-2147483648, -1, 0, 1, 2, 3, 4, 2147483647]
 # 1065353217 is the float next to 1.0, 1036831950 the one next to 0.1 (comparisons are exact, never "close enough")
-FP15 = [F[k] for k in ("zero", "nzero", "one", "mone", "h", "x15", "m25", "three", "tiny", "big", "inf", "ninf", "nan", "tenth", "max")] + [1065353217, 1036831950]
-FP7 = [F[k] for k in ("zero", "nzero", "one", "m25", "h", "inf", "nan")] + [1065353217]
+FP15 = [F[k] for k in ("zero", "nzero", "one", "mone", "h", "x15", "m25", "three", "tiny", "big", "inf", "ninf", "nan", "tenth", "max")] + [1065353217, 1036831950, 1070141403, -1077342245]
+# 1070141403 = pi/2 as a float, -1077342245 = -pi/2, 1083624420 = 3 pi/2 (values next to which a guarded function may cut out)
+FP7 = [F[k] for k in ("zero", "nzero", "one", "m25", "h", "inf", "nan")] + [1065353217, 1070141403]
 
 GENERIC_OPS = ("DUP", "POP", "FLUSH", "SWAP", "ROT", "YANK", "YANKDUP", "SHOVE", "STACKDEPTH", "ID", "DEFINE")
 NINE = ("BOOLEAN", "INTEGER", "FLOAT", "NAME", "CODE", "EXEC", "BOOLVECTOR", "INTVECTOR", "FLOATVECTOR")
@@ -50,7 +51,7 @@ def vector_instrs(reg):
 
 
 UMLAUT_INSTR = "VERIF.N\xd6\xd6P*MIT*UML\xc4UTEN*\xdcBER*DREIUNDZWANZIG*BYTES"     # a custom instruction with a non-ASCII name (harness)
-CUSTOM_INSTRS = ["VERIF.PROBE", "VERIF.NOOP*WITH*A*NAME*LONGER*THAN*ANY*BUILTIN*INSTRUCTION", UMLAUT_INSTR, "VERIF." + "\u00c4\u00d6\u00dc*" * 12 + "NOOP", "VERIF.MyInstruction", "VERIFSQUARE", "verif.lower", "2VERIF"]
+CUSTOM_INSTRS = ["VERIF.PROBE", "VERIF.NOOP*WITH*A*NAME*LONGER*THAN*ANY*BUILTIN*INSTRUCTION", UMLAUT_INSTR, "VERIF." + "\u00c4\u00d6\u00dc*" * 12 + "NOOP", "VERIF.MyInstruction", "VERIFSQUARE", "verif.lower", "2VERIF", "424242", "4.25"]
 RAND = ["BOOLEAN.RAND", "INTEGER.RAND", "FLOAT.RAND", "NAME.RAND", "NAME.RANDBOUNDNAME", "BOOLVECTOR.RAND", "INTVECTOR.RAND", "FLOATVECTOR.RAND"]
 LISTREC = ["LIST.ADD", "LIST.SET"]
 LISTVAL = ["LIST.REMOVE", "LIST.GET", "LIST.BVAL", "LIST.IVAL", "LIST.FVAL"]
@@ -174,7 +175,8 @@ def code_point_cases(ctx, n):
                                  ("CODE.EXTRACT", [t], [g.r.choice([k, k, -k, k + len(pts), g.r.randint(-40, 40)])]),
                                  ("CODE.INSERT", [t, repl], [g.r.choice([k, k, g.r.randint(0, len(pts) - 1)])]),
                                  ("CODE.NTH", [t], [g.r.randint(-10, 20)]), ("CODE.DISCREPANCY", [t, needle if needle["k"] == "list" else repl], []),
-                                 ("CODE.SIZE", [t], []), ("CODE.CDR", [t], []), ("CODE.CAR", [t], []), ("CODE.CONS", [t, needle], []), ("CODE.=", [t, needle], [])):
+                                 ("CODE.SIZE", [t], []), ("CODE.CDR", [t], []), ("CODE.CAR", [t], []), ("CODE.CONS", [t, needle], []), ("CODE.=", [t, needle], []),
+                                 ("CODE.=", [t, json.loads(json.dumps(t))], []), ("CODE.DISCREPANCY", [t, json.loads(json.dumps(t))], []), ("CODE.CONTAINS", [t, json.loads(json.dumps(t))], [])):
             s = gen.empty_state()
             s["code"] = code + [{"k": "id", "v": "below"}]
             s["int"] = ints + [777]
@@ -313,6 +315,14 @@ def run_c09(ctx):
     run_events(ctx, "vector_sequences", vector_sequence_cases(ctx, 60 if q else 3000))
     run_events(ctx, "long_vectors", long_vector_cases(ctx, 3 if q else 60, ctx.seed + 29))
     run_events(ctx, "aba_triples", aba_cases(ctx, instrs, 2 if q else 40, ctx.seed + 33))
+    # sums and means whose partial sums leave the range in which every integer is a float
+    cs = []
+    for k, v in enumerate([[16777216, 1, 1], [1, 1, 16777216], [16777217, 16777217], [33554432, 3, 1, 0], [-16777216, -1, -1], [2147483647, -2147483647, 9, 9, 9],
+                           [5, 5, 5, 5], [16777215, 16777215, 16777215], [100000000, 100000001, 100000001]]):
+        for name in ("INTVECTOR.MEAN", "INTVECTOR.SUM"):
+            s = gen.empty_state(); s["ivec"] = [v, [1]]; s["exec"] = [ins(name)]
+            cs.append({"id": "bigmean-%d-%s" % (k, name), "pre": s, "acts": [{"a": "step"}]})
+    run_events(ctx, "big_sums", cs)
 
 
 def aba_cases(ctx, instrs, n_each, seed):
@@ -873,7 +883,7 @@ def parser_model(ctx, maxtoks, maxpoints):
 
 
 WS_CHARS = [" ", "\t", "\n", "\r", "\u000b", "\u000c", "\u0085", "\u00a0", "\u1680", "\u2003", "\u2028", "\u3000", "  "]
-ODD_TOKENS = ["(", ")", "(", ")", "INT[", "INT[]", "INT[1,2]", "INT[1,2}", "INT[1,,2]", "INT[\u00e9", "INT[1\u00e9", "BOOL[", "BOOL[1,0,true,false]", "BOOL[TRUE]",
+ODD_TOKENS = ["(", ")", "(", ")", "INT[1,", "FLOAT[1.5,", "BOOL[1,", "INT[,", "INT[", "INT[]", "INT[1,2]", "INT[1,2}", "INT[1,,2]", "INT[\u00e9", "INT[1\u00e9", "BOOL[", "BOOL[1,0,true,false]", "BOOL[TRUE]",
               "FLOAT[", "FLOAT[1.5,-0.25]", "FLOAT[1e3,nan]", "FLOAT[x]", "\u00e9]", "\u00e9", "na\u00efve", "\u4e2d\u6587", "(x", "x)", "()", "1", "-1", "+1", "007",
               "2147483647", "2147483648", "-2147483648", "-2147483649", "1.5", "-0.125", ".5", "5.", "1e3", "1E-2", "inf", "-Infinity", "NaN", "nan", "infinit", "1.2.3", "1e", "--1",
               "TRUE", "FALSE", "true", "INTEGER.+", "CODE.QUOTE", "VERIF.PROBE", "VERIF.NOOP*WITH*A*NAME*LONGER*THAN*ANY*BUILTIN*INSTRUCTION", UMLAUT_INSTR, CUSTOM_INSTRS[3], CUSTOM_INSTRS[4], CUSTOM_INSTRS[5], CUSTOM_INSTRS[6], CUSTOM_INSTRS[7], "verif.myinstruction", "VERIFSQUAR", "2verif", "GRAPH.NODE*PREDECESSORS", "EXEC.DO*COUNT", "integer.+", "foo", "foo-bar", "x1", "[1,2]", "BOOLVECTOR.AND", "NOOP"]
